@@ -661,7 +661,20 @@ func (d ServicesData) analyze(service *expr.ServiceExpr) *Data {
 			if hasResultType(m.Result) {
 				types, umeths := collectProjectedTypes(expr.DupAtt(m.Result), m.Result, viewspkg, scope, viewScope, seenProj)
 				projTypes = append(projTypes, types...)
-				viewedUnionMeths = append(viewedUnionMeths, umeths...)
+				// The same union may be reached through several projected
+				// types (e.g. via Extend), define its methods only once.
+				for _, um := range umeths {
+					dup := false
+					for _, m := range viewedUnionMeths {
+						if m.TypeRef == um.TypeRef && m.Name == um.Name {
+							dup = true
+							break
+						}
+					}
+					if !dup {
+						viewedUnionMeths = append(viewedUnionMeths, um)
+					}
+				}
 			}
 			for _, er := range m.Errors {
 				recordError(er)
